@@ -53,31 +53,78 @@ def r2_symmetric_inputs(cx):
         r = deep_root(hi, t["args"][1])
         ok = r is not None and any(e["k"] == "downcast" and e.get("v") in ("Ping", "Pong") for e in r.get("p", []))
         cx.check("peer-list-from-message", ok, site_of(hi, ci), "the peer's list given to select_algorithm is the one carried by the received ping/pong")
-    # per-cipher score = minimum of own and peer speed
+    # per-cipher score = the smaller of own and peer speed: some closure of the selector builds a pair (cipher, score)
+    # whose score is one of exactly two speed values, chosen by comparing those same two values.  Shape-agnostic: the
+    # pair may be built in the filter_map closure, in a nested `.map` closure (spliced by A13c) or after a spliced helper.
+    def rkey(body, op_or_place):
+        r = deep_root(body, op_or_place)
+        if r is None:
+            return None
+        return (r["l"], tuple((e["k"], e.get("i")) for e in r.get("p", []) if e["k"] in ("field", "downcast")))
     found = False
     for cb in prog.find_bodies(lambda b: b.path.startswith(sel.path + "::{closure")):
-        for bi, si, s in cb.stmts():
-            if s["k"] == "assign" and s["rv"]["k"] == "aggregate" and s["rv"].get("agg") == "tuple" and len(s["rv"]["ops"]) == 2 and s["place"]["l"] == 0:
-                sp = op_local(s["rv"]["ops"][1])
-                defs = defuse(cb).defs.get(sp, []) if sp is not None else []
+        cmps = []
+        for ci, ct in cb.calls():
+            c = ct.get("callee")
+            if c and c.get("name") in ("lt", "le", "gt", "ge", "min", "partial_cmp") and len(ct["args"]) == 2:
+                cmps.append(frozenset(rkey(cb, a) for a in ct["args"]))
+        for bi, si, s0 in cb.stmts():
+            if s0["k"] == "assign" and s0["rv"]["k"] == "binop" and s0["rv"]["op"] in ("Lt", "Le", "Gt", "Ge"):
+                pa, pb = op_place(s0["rv"]["a"]), op_place(s0["rv"]["b"])
+                if pa is not None and pb is not None and cb.place_ty(pa).k == "float":
+                    cmps.append(frozenset((rkey(cb, pa), rkey(cb, pb))))
+        for bi, si, s0 in cb.stmts():
+            if s0["k"] == "assign" and s0["rv"]["k"] == "aggregate" and s0["rv"].get("agg") == "tuple" and len(s0["rv"]["ops"]) == 2:
+                sp = op_local(s0["rv"]["ops"][1])
+                if sp is None or cb.local_ty(sp).k != "float":
+                    continue
                 roots = set()
-                for d in defs:
-                    if d[0] == "stmt" and d[3]["rv"]["k"] == "use" and op_place(d[3]["rv"]["op"]) is not None:
-                        roots.add(deep_root(cb, op_place(d[3]["rv"]["op"]))["l"])
-                cmps = []
-                for ci, ct in cb.calls():
-                    c = ct.get("callee")
-                    if c and c.get("name") in ("lt", "le", "gt", "ge", "min") and len(ct["args"]) == 2:
-                        rs = set()
-                        for a in ct["args"]:
-                            rr = deep_root(cb, a)
-                            if rr is not None:
-                                rs.add(rr["l"])
-                        cmps.append(rs)
-                if roots == {1, 2} and any(rs == {1, 2} for rs in cmps):
+                plain = True
+
+                def sources(local, depth=0):
+                    """Places a float local can be a copy of, looking through `Some(v)` wrappers and their payload."""
+                    nonlocal plain
+                    if depth > 6:
+                        plain = False
+                        return
+                    for d in defuse(cb).defs.get(local, []):
+                        if not (d[0] == "stmt" and d[3]["rv"]["k"] == "use" and op_place(d[3]["rv"]["op"]) is not None):
+                            plain = False
+                            continue
+                        pl = op_place(d[3]["rv"]["op"])
+                        pj = pl.get("p") or []
+                        if len(pj) == 2 and pj[0]["k"] == "downcast" and pj[0].get("v") in ("Some", "Ok", "Continue") and pj[1]["k"] == "field":
+                            # payload of an Option built in this body: look at what was wrapped
+                            wl = [pl["l"]]
+                            seenw = set()
+                            wrapped = False
+                            while wl:
+                                x = wl.pop()
+                                if x in seenw:
+                                    continue
+                                seenw.add(x)
+                                for dx in defuse(cb).defs.get(x, []):
+                                    if dx[0] == "stmt" and dx[3]["rv"]["k"] == "aggregate" and dx[3]["rv"].get("variant") in ("Some", "Ok") and dx[3]["rv"]["ops"] and op_local(dx[3]["rv"]["ops"][0]) is not None:
+                                        wrapped = True
+                                        sources(op_local(dx[3]["rv"]["ops"][0]), depth + 1)
+                                    elif dx[0] == "stmt" and dx[3]["rv"]["k"] == "use" and op_local(dx[3]["rv"]["op"]) is not None:
+                                        wl.append(op_local(dx[3]["rv"]["op"]))
+                                    elif dx[0] == "call" and callee_is(dx[2], "Try::branch", "ops::Try>::branch") and op_local(dx[2]["args"][0]) is not None:
+                                        wl.append(op_local(dx[2]["args"][0]))
+                            if not wrapped:
+                                roots.add(rkey(cb, pl))
+                            continue
+                        if not pj and not (1 <= pl["l"] <= cb.arg_count) and defuse(cb).defs.get(pl["l"]) and cb.local_ty(pl["l"]).k == "float" \
+                                and all(dz[0] == "stmt" and dz[3]["rv"]["k"] == "use" for dz in defuse(cb).defs.get(pl["l"], [])):
+                            # a float temporary that is itself only ever a copy: look at what it copies
+                            sources(pl["l"], depth + 1)
+                            continue
+                        roots.add(rkey(cb, pl))
+                sources(sp)
+                if plain and len(roots) == 2 and None not in roots and frozenset(roots) in cmps:
                     found = True
-                    cx.check("score-is-min-of-both", True, site_of(cb, span=s["span"]),
-                             "the candidate's score is selected between the own speed (captured) and the peer's speed (argument) by comparing the two")
+                    cx.check("score-is-min-of-both", True, site_of(cb, span=s0["span"]),
+                             "the candidate's score is one of the own and the peer's speed for that cipher, selected by comparing the two")
     if not found:
         cx.check("score-is-min-of-both", False, site_of(sel), "no closure of select_algorithm builds (cipher, min(own speed, peer speed))")
 
